@@ -208,6 +208,9 @@ def observe(par, kind='vars', seqkind='list', as_str=False, extra=''):
     elif seqkind == 'tuple':
         seq = tuple(range(1, L + 1))
         pulls = lambda: 0  # noqa
+    elif seqkind == 'listnone':          # None is an element like any other: it has its place in the window
+        seq = [None if k % 3 == 2 else k for k in range(1, L + 1)]
+        pulls = lambda: 0  # noqa
     elif seqkind == 'gen':
         c = Counter(L)
         seq = c
